@@ -10,7 +10,7 @@ from csverif.astutil import (
     param_defaults, params, src, statements, strip_cast,
 )
 from csverif.cfg import ENTRY, EXIT
-from csverif.q import FuncView, calls_to, guarded_by, origin
+from csverif.q import FuncView, calls_to, dominating_conditions, guarded_by, inline, origin
 
 VIEWS = {
     "raw_settings": ("name", False),
@@ -118,6 +118,18 @@ def r2_r4(ctx):
                 pp = guarded_by(ctx, f, v, lambda t: True if {dotted(x) for x in (t.values if isinstance(t, ast.BoolOp) else [t])} >= {"parse"} else None)
                 ctx.ob("R2", "AGREE", f, src(st), ok and pp,
                        f"under type=={member}: unpack(size={size}, byteorder={bo}, signed={sg}) of val; required {want.get(member)}; applied when parse/pretty={pp}", st)
+                # whether a SHORT/INT record is converted depends on the requested view and the record's type only,
+                # never on its value or length (a zero-length record is still an integer in every view)
+                dep = []
+                for _t, _pol, e in dominating_conditions(ctx, f, v):
+                    e = inline(f.node, e)
+                    for n in ast.walk(e):
+                        if isinstance(n, ast.Name) and n.id == VAL:
+                            dep.append(src(e))
+                        elif isinstance(n, ast.Attribute) and dotted(n.value) == sv and n.attr != "type":
+                            dep.append(src(e))
+                ctx.ob("R2", "DOM", f, src(st) + " unconditional in the value", not dep,
+                       "conversion is guarded by view flags and the record type only" if not dep else f"conversion also depends on the record's value/length: {sorted(set(dep))}", st)
                 continue
             # pretty function application
             if isinstance(origin(f.node, v.func), ast.Call) and "SETTING_TO_PRETTYFUNC" in src(origin(f.node, v.func)) and v.args and dotted(v.args[0]) == VAL:
